@@ -1112,6 +1112,18 @@ func (f *frame) appendOp(common *ssa.CallCommon, args []Val, st *State, instr ss
 				c.addFact(Forall([]*Term{k}, Imp(And(Le(s.L[2], k), Lt(k, newLen)), Eq(Select(a, k), Select(Select(h, more.L[0]), Add(more.L[1], Sub(k, s.L[2]))))), []*Term{Select(a, k)}))
 			}
 		}
+		if ls := leavesOf(el); len(ls) == 1 && (l.Sort == SInt || l.Sort == SStr) {
+			// what the new slice holds, as a set (member): the elements of the old one and the appended ones
+			x := Var("x!a", l.Sort)
+			mem := func(arr, off, n *Term) *Term { return App("mem_"+l.Sort, SBool, arr, off, n, x) }
+			rhs := mem(Select(h, s.L[0]), s.L[1], s.L[2])
+			if len(args) > 1 && !moreIsString {
+				rhs = Or(rhs, mem(Select(h, more.L[0]), more.L[1], n))
+			}
+			if len(args) <= 1 || !moreIsString {
+				c.addMemFact(Forall([]*Term{x}, Eq(mem(a, IntT(0), newLen), rhs), []*Term{mem(a, IntT(0), newLen)}))
+			}
+		}
 		c.set(st, fam, Store(h, obj, a))
 	}
 	c.note("append modelled functionally (fresh backing array; in-place growth aliasing not modelled)")
